@@ -14,3 +14,42 @@ def tst_newer(a, b):
     """EN 302 636-4-1 Annex C.2: a is later than b in wrap-around (serial number) order"""
     d = (a - b) % 2 ** 32
     return 0 < d < 2 ** 31 or (d == 2 ** 31 and a > b)
+
+
+def now_its_ms():
+    """the receiver's clock in ITS milliseconds (ghost real `now` in seconds, millisecond resolution, unreduced)"""
+    return int((now() - 1072915200 + 5) * 1000)
+
+
+def age_ms(now_ms, tst_msec):
+    """signed age of a 32-bit timestamp relative to the (unreduced) clock: the representative of
+    (now - tst) mod 2^32 in [-2^31, 2^31)"""
+    d = (now_ms - tst_msec) % 2 ** 32
+    return d - 2 ** 32 if d >= 2 ** 31 else d
+
+
+def sgn32(d):
+    """representative of d (0 <= d < 2^32) in [-2^31, 2^31)"""
+    return d - 2 ** 32 if d >= 2 ** 31 else d
+
+
+def clock_tst_ms():
+    """the 32-bit ITS time stamp of the local clock truncated to whole seconds (what refresh_table compares with)"""
+    return int(((int(now()) - 1072915200 + 5) * 1000) % 2 ** 32)
+
+
+def gn_key_eq(a, b):
+    """dict-key identity of GN addresses (hash of all fields and ==)"""
+    return a.m == b.m and a.st == b.st and a.mid.mid == b.mid.mid
+
+
+def entry_ok(e):
+    return dpl_wf(e) and e.pdr >= 0 and 0 <= e.mib.itsGnMaxPacketDataRateEmaBeta <= 100 and e.mib.itsGnDPLLength >= 1
+
+
+def K0(t):
+    return map_key0(t.loc_t)
+
+
+def newest_pv(old_pv, pv):
+    return pv if (old_pv.tst.msec == 0 or tst_newer(pv.tst.msec, old_pv.tst.msec)) else old_pv
